@@ -219,6 +219,22 @@ chk("C11",
     "TLA+ spec + TLC; spec->impl replay compiled/executed (rustc, gcc, g++, node) and scheme interpretation for dart/kotlin/nanobind",
     "DESIGN.md §5 C11")
 
+chk("C09",
+    "spec/build/Includes.tla models the decl/impl header discipline (X.d includes by-value members and forward-declares pointees, "
+    "X.h includes the .d of everything its methods mention) and a compiler's depth-first include processing with guards; TLC proves "
+    "EveryHeaderCompilesAlone for every reference graph on 2 (quick) / 3 (thorough, 23k graphs) types with cycles through pointers "
+    "and methods, and refutes the design without by-value includes. spec/pipeline/Pipeline.tla carries AcceptedBuilds. Program sets: "
+    "TLC-enumerated reference graphs decorated with namespaces, renames and keyword-named parameters; every shape the Gate spec "
+    "accepts for the C profile; feature_tests and example. For each set the macro expansion is compiled by rustc (errors are "
+    "attributed to the shape via one bridge module per shape, and the remaining shapes must build together), every .h is compiled "
+    "alone as C11, every .hpp alone as C++17 and C++20, all headers in shuffled orders, every .mjs goes through node --check and an "
+    "import-resolution pass; the Build events are validated by Trace_Pipeline.tla.",
+    "Well-formedness is judged by rustc 1.95, gcc/g++ 12, node 20. Rust raw identifiers and callback results that borrow are outside "
+    "the grammar (rustc or the language itself refuses them). Five classes of accepted-but-not-building shapes found on the "
+    "unchanged tree are recorded in known_findings.json keyed by shape pattern and compiler message.",
+    "TLA+ spec + TLC (design-level include discipline); impl->spec trace validation of build events from real compilers",
+    "DESIGN.md §5 C09")
+
 NOT_YET = {}
 
 
